@@ -238,6 +238,104 @@ theorem vc_image_wf {cs : Frame} {d : PyVal} {o : VcObj} (h : vcFromDict md5 cs 
 theorem vc_import_stable {cs : Frame} {d : PyVal} {o : VcObj} (h : vcFromDict md5 cs d = .ok o) :
     vcFromDict md5 cs (vcToDict o) = .ok o := vc_roundtrip md5 cs o (vc_image_wf md5 h)
 
+/-! ### AnnotationCollection and its parent -/
+
+theorem optChildren_ok_all {α : Type} {f : PyVal → D α} {P : α → Prop} (hf : ∀ v a, f v = .ok a → P a)
+    {v : PyVal} {r : List α} (h : optChildren f v = .ok r) : ∀ a ∈ r, P a := by
+  unfold optChildren at h
+  split at h
+  · rcases bind_eq_ok.mp h with ⟨l, _, hm⟩
+    exact mapM_ok_all hf hm
+  · cases h; intro a ha; cases ha
+
+theorem asStr_truthy {v : PyVal} {s : Str} (h : asStr v = .ok s) (ht : truthy v = true) : s ≠ [] := by
+  cases v with
+  | str t =>
+    cases h
+    intro hs; subst hs; simp [truthy] at ht
+  | _ => cases h
+
+theorem asOptStr_present {v : PyVal} {o : Option Str} (h : asOptStr v = .ok o) (hp : truthyOrPresent v = true) :
+    o ≠ none := by
+  cases v with
+  | none => cases hp
+  | str t => cases h; simp
+  | _ => cases h
+
+/-- what the importer can return for a parent dictionary: a parent in the state the round trip was proved for, or a
+    sequence-less parent that is not typed CHROMOSOME (its custom type / missing name is not exported again) -/
+theorem parentFromDict_wf {v : PyVal} {p : ParentDesc} (h : parentFromDict v = .ok p) :
+    ParentWF p ∨ ∃ id, p = .bare id false := by
+  cases v with
+  | none => cases h; exact Or.inl trivial
+  | dict kvs =>
+    simp only [parentFromDict, bind_eq_ok] at h
+    obtain ⟨tyU, _, h⟩ := h
+    split at h
+    · next hseq =>
+      simp only [bind_eq_ok] at h
+      obtain ⟨sq, hsq, al, _, h⟩ := h
+      have hne := asStr_truthy hsq hseq
+      split at h
+      · simp only [bind_eq_ok] at h
+        obtain ⟨name, _, s, _, e, _, st, _, heq⟩ := h
+        cases heq
+        exact Or.inl hne
+      · split at h
+        · cases h
+        · next hg =>
+          simp only [bind_eq_ok] at h
+          obtain ⟨id, hid, heq⟩ := h
+          cases heq
+          refine Or.inl ⟨hne, ?_⟩
+          simp only [Bool.and_eq_true, Bool.not_eq_true', not_and, Bool.not_eq_false] at hg
+          by_cases hr : chromIdRepaired = true
+          · exact Or.inl hr
+          · refine Or.inr (asOptStr_present hid ?_)
+            have := hg (by simpa using hr)
+            simpa using this
+    · split at h
+      · simp only [bind_eq_ok] at h
+        obtain ⟨id, _, heq⟩ := h
+        cases heq
+        cases hc : (tyU == some "CHROMOSOME".toList) with
+        | true => exact Or.inl (Or.inl rfl)
+        | false => exact Or.inr ⟨id, rfl⟩
+      · cases h; exact Or.inl trivial
+  | _ => cases h
+
+theorem ac_image_wf {d : PyVal} {given : ParentDesc} {o : AcObj} (h : acFromDict md5 d given = .ok o)
+    (hp : ParentWF o.parent) : AcWF md5 o := by
+  simp only [acFromDict, bind_eq_ok] at h
+  obtain ⟨parent, _, _, _, genes, hg, _, _, fcs, hf, _, _, vcs, hv, _, _, name, _, _, _, id, _, _, _, quals, _,
+    _, _, sname, _, _, _, sguid, _, _, _, spath, _, _, _, s, _, _, _, e, _, _, _, cw, _, bounds, _, heq⟩ := h
+  cases heq
+  exact ⟨importQuals_wf _, optChildren_ok_all (fun v a ha => gene_image_wf md5 ha) hg,
+    optChildren_ok_all (fun v a ha => fc_image_wf md5 ha) hf,
+    optChildren_ok_all (fun v a ha => vc_image_wf md5 ha) hv, hp, rfl⟩
+
+/-- the parent an imported collection ends up with: the one handed in, or the one read from the dictionary -/
+theorem ac_image_parent {d : PyVal} {given : ParentDesc} {o : AcObj} (h : acFromDict md5 d given = .ok o) :
+    o.parent = given ∨ (given = .none ∧ (ParentWF o.parent ∨ ∃ id, o.parent = .bare id false)) := by
+  simp only [acFromDict, bind_eq_ok] at h
+  obtain ⟨parent, hpar, _, _, genes, _, _, _, fcs, _, _, _, vcs, _, _, _, name, _, _, _, id, _, _, _, quals, _,
+    _, _, sname, _, _, _, sguid, _, _, _, spath, _, _, _, s, _, _, _, e, _, _, _, cw, _, bounds, _, heq⟩ := h
+  cases heq
+  unfold resolveParent at hpar
+  split at hpar
+  · cases hpar; exact Or.inl rfl
+  · next hn =>
+    have hg : given = .none := by simpa using hn
+    refine Or.inr ⟨hg, ?_⟩
+    split at hpar
+    · exact parentFromDict_wf hpar
+    · cases hpar; exact Or.inl trivial
+
+theorem ac_import_stable {d : PyVal} {given : ParentDesc} {o : AcObj} (h : acFromDict md5 d given = .ok o)
+    (hp : ParentWF o.parent) (ep : Bool) (d' : PyVal) (hd : acToDict o ep = .ok d') :
+    acFromDict md5 d' (if ep then .none else o.parent) = .ok o :=
+  ac_roundtrip md5 o (ac_image_wf md5 h hp) ep d' hd
+
 /-! ### concrete objects for the non-vacuity examples of Props/C08.lean -/
 
 def exTx : TxObj := ⟨⟨[0, 20], [10, 30], .minus, some ([5, 20], [10, 25], [.ONE, .ZERO]),
